@@ -378,3 +378,9 @@ B(["C11"], "scope reversed with reversed()", T,
 B(["C15", "C20", "C06"], "alphabet built with a comprehension", EN,
   'codepage_number_compress = codepage.replace("»", "")',
   'codepage_number_compress = "".join(c for c in codepage if c != "»")')
+
+B(["C03", "C05", "C18", "C04"], "number scan written peek-then-commit", LX,
+  "                ):\n                    contextual_token_value += source.popleft()\n",
+  "                ):\n                    candidate = contextual_token_value + source[0]\n"
+  "                    source.popleft()\n"
+  "                    contextual_token_value = candidate\n")
